@@ -16,4 +16,10 @@ def jobs(tier):
 
 
 def extra_jobs(tier):
-    return []
+    # reservations that shrink over several partial fills (volume-limited liquidity, 2 bars), incl. sells whose minimum
+    # fee exceeds the proceeds (they reserve quote as well)
+    ps = [dict(plan="single", depth=3, bp=8, qp=2, liq="vsi", vols=["10"], namounts=3, kinds=["limit", "stop_limit"],
+               min_fee="5"),
+          dict(plan="single", depth=3, bp=0, qp=2, liq="vsi", vols=["10", "127.83333333"], namounts=3,
+               kinds=["limit"])]
+    return hist.jobs_for(PROPS, ps)
